@@ -162,6 +162,9 @@ def cases(draw: st.DrawFn) -> dict:
                 continue
             args[p["name"]] = G.gen_value(draw, p["t"], env)
         calls.append({"m": mi, "args": args})
+        if any(G.strip_opt(p["t"])["k"] == "ts" and G.strip_opt(p["t"]).get("tz") for p in methods[mi]["params"]):
+            # the same instant spelled in another zone is the same value of a zoned timestamp column
+            calls[-1]["tzoff"] = ch(draw, [0, 0, 330, -300, 60, -720, 840, 1])
     if chance(draw, 1, 3):
         mi = draw(G._upto(len(methods) - 1))
         m = methods[mi]
@@ -170,6 +173,8 @@ def cases(draw: st.DrawFn) -> dict:
         if opts:
             args = {q["name"]: G.gen_value(draw, q["t"], env) for q in m["params"] if q["name"] != p["name"]}
             calls.append({"m": mi, "args": args, "bad": {"p": p["name"], **ch(draw, opts)}})
+            if G.strip_opt(p["t"])["k"] == "ts" and G.strip_opt(p["t"]).get("tz"):
+                calls[-1]["tzoff"] = ch(draw, [0, 0, 330, -300, 60, -720, 840, 1])
     return {"env": env, "methods": methods, "calls": calls}
 
 
@@ -281,6 +286,16 @@ def _one_call(out: Outcome, tr: str, conn: Any, rec: list, env: G.Env, m: dict, 
             expected[p["name"]] = G._expected_value(p["t"], c["args"][p["name"]], env)
         else:
             expected[p["name"]] = G._expected_value(p["t"], p["default"]["v"], env)
+    off = c.get("tzoff", 0)
+    if off:
+        out.label("zoned_ts_other_offset")
+        for p in m["params"]:
+            v = kwargs.get(p["name"])
+            if isinstance(v, dt.datetime) and v.tzinfo is not None and G.strip_opt(p["t"])["k"] == "ts":
+                try:
+                    kwargs[p["name"]] = v.astimezone(dt.timezone(dt.timedelta(minutes=off)))
+                except OverflowError:
+                    pass  # datetime.min/max cannot be spelled in that zone
     sig = "+".join(sorted({G.type_sig(p["t"]) for p in m["params"]}))
     del rec[:]
     tc = _tclass(tr)
